@@ -290,6 +290,30 @@ def step (s : St) : Lbl → Option St
                     sds := setC k .main (if ok && !s.sdErr then .retOk else .retErr) s.sds }
     else none
 
+/-- `chunkExporter.Export` as a function (fuel = an upper bound of the number of records): `res` are the inner
+exporter's results, one per call (`true` = nil, `false` = ANY error — an ordinary one, context.Canceled,
+context.DeadlineExceeded, …); the result is the list of calls made, in order, and whether some call failed
+(`errors.Join`). No result ends the loop: only the records run out. -/
+def chunkExport (size : Nat) : Nat → List Bool → List Nat → List (List Nat) × Bool
+  | 0, _, _ => ([], false)
+  | fuel + 1, res, l =>
+    if l = [] then ([], false)
+    else
+      let r := chunkExport size fuel res.tail (l.drop size)
+      (l.take size :: r.1, !(res.headD true) || r.2)
+
+/-- the same loop on the LTS: exportSync holding a request runs `eStart` / `eEnd result` until it is idle again -/
+def exportLoop : Nat → List Bool → St → Option St
+  | 0, _, s => some s
+  | fuel + 1, res, s =>
+    if s.eph = .have then
+      match step s .eStart with
+      | none => none
+      | some s1 => match step s1 (.eEnd (res.headD true)) with
+        | none => none
+        | some s2 => exportLoop fuel res.tail s2
+    else some s
+
 /-- F22 exclusion predicate for a ForceFlush: it returned nil while a Shutdown had started (the processor's
 `stopped` flag was set): through the `stopped` check, through the buffer exporter's `errStopped`, or on the
 normal path while Shutdown held the flushed records. -/
